@@ -231,6 +231,8 @@ func (db *DB) loadSchema(of Object) (s *Schema, err error) {
 		}
 
 		db.schemas[stype(of)] = s
+		// pending writes of this schema must get flushed from now on
+		db.startAsyncWritesRoutine(s)
 		return
 	}
 
@@ -275,7 +277,9 @@ func (db *DB) mustFlushAsyncW(s *Schema, slept time.Duration) bool {
 		return false
 	}
 
-	return db.asyncw.count(s.object) >= s.AsyncWrites.Threshold || slept >= s.AsyncWrites.Timeout
+	// nothing to do as long as no write is pending
+	n := db.asyncw.count(s.object)
+	return n > 0 && (n >= s.AsyncWrites.Threshold || slept >= s.AsyncWrites.Timeout)
 }
 
 func (db *DB) schema(of Object) (s *Schema, err error) {
